@@ -636,7 +636,7 @@ def endings(tier="quick"):
     for name in ("SIGSEGV", "SIGABRT"):
         ops.append(ninja_op(j=2, k=1, faults={"a": {"dies": FATAL_SIGNALS[name], "core": True}},
                             label="ninja -j2 -k1, a dies of %s and dumps core" % name))
-    for code in ((1, 2, 127, 255) if tier == "quick" else (1, 2, 3, 126, 127, 128, 129, 137, 139, 143, 254, 255)):
+    for code in ((1, 2, 127, 128, 255) if tier == "quick" else (1, 2, 3, 126, 127, 128, 129, 137, 139, 143, 254, 255)):
         for k in (1, 0):
             ops.append(ninja_op(j=2, k=k, faults={"a": {"code": code, "touch": True}}))
     sc = scenario("endings/chain+indep", "rb", [v], ops=ops, init=[], depth=1)
@@ -691,7 +691,7 @@ def replay(rj):
         elif rj["kind"] == "early-close":
             o = early_close_case(ninja)
         elif rj["kind"] == "slow-to-die":
-            o = _slow_to_die_case((rj["signal"], ninja, rj.get("variant") == 3))
+            o = _slow_to_die_case((rj["signal"], ninja, {3: True, 4: "mixed"}.get(rj.get("variant"), False)))
         elif rj["kind"] == "signal-outside-wait":
             o = _signal_outside_wait_case((rj["signal"], ninja, rj.get("variant", 0)))
         elif rj["kind"] == "signal":
@@ -797,7 +797,7 @@ def _slow_to_die_case(args):
     twice = len(args) > 2 and args[2]     # an impatient second signal while ninja waits for the command to be gone
     root = tempfile.mkdtemp(prefix="rbdie.", dir=rb.SHM)
     out = {"signal": signame, "scenario": "command_slow_to_die" + ("_signalled_twice" if twice else ""), "wait": 0, "partial": True, "problems": [],
-           "variant": 3 if twice else 2}
+           "variant": (4 if twice == "mixed" else 3) if twice else 2}
     try:
         with open(os.path.join(root, "build.ninja"), "w") as f:
             f.write(SLOW_TO_DIE_MANIFEST)
@@ -812,6 +812,9 @@ def _slow_to_die_case(args):
             time.sleep(0.25)
             if p.poll() is None:
                 os.kill(p.pid, getattr(signal, signame))
+            if twice == "mixed" and p.poll() is None:
+                # ... and another of the three on top (kill after an unanswered Ctrl-C, the terminal going away)
+                os.kill(p.pid, {"SIGINT": signal.SIGTERM, "SIGTERM": signal.SIGHUP, "SIGHUP": signal.SIGINT}[signame])
         try:
             p.wait(timeout=20)
         except subprocess.TimeoutExpired:
@@ -838,7 +841,7 @@ def _slow_to_die_case(args):
 def slow_to_die():
     ninja, _ = rb.build_tools()
     with multiprocessing.Pool(3) as pool:
-        return pool.map(_slow_to_die_case, [(s, ninja, tw) for s in ("SIGINT", "SIGTERM", "SIGHUP") for tw in (False, True)])
+        return pool.map(_slow_to_die_case, [(s, ninja, tw) for s in ("SIGINT", "SIGTERM", "SIGHUP") for tw in (False, True, "mixed")])
 
 
 def c07_process_level(c):
